@@ -383,7 +383,7 @@ universally quantified; the only thing assumed about it is that the awaited task
 theorem translated_outputasync_ctrl_cancel_idle_is_settle (c : Cfg) (W : State → State)
     (hm : c.mode = Mode.cancel) (s : State) (j : Job) (q : List Job) (task : Option Job) (data : Option Job)
     (fuel : Nat) (hr : s.runs = []) (hq : s.queue = j :: q) (hf : q.length < fuel) :
-    ctrl_cancel_iter1 (ctrlP c W) [()] fuel () data false task s
+    ctrl_cancel_iter1 (ctrlP c W) [.onCancel] fuel () data false task s
       = (settle c s, .next (LoopCtl.next, (some (lastJob j q), s.stopped, some (lastJob j q)))) := by
   have htail := cancel_tail c W hm { s with queue := q } j fuel hr hf
   have hre : requeue j { s with queue := q } = s := by cases s; simp_all [requeue]
@@ -406,7 +406,7 @@ theorem translated_outputasync_ctrl_cancel_busy_is_settle_wait_settle (c : Cfg) 
     (q : List Job) (data : Option Job) (fuel : Nat) (hr : s.runs = r :: rest) (hq : s.queue = j :: q)
     (hf : (W { settle c s with queue := q }).queue.length < fuel) :
     let s2 := W { settle c s with queue := q }
-    ctrl_cancel_iter1 (ctrlP c W) [()] fuel () data false (some r.job) s
+    ctrl_cancel_iter1 (ctrlP c W) [.onCancel] fuel () data false (some r.job) s
       = (settle c (requeue j s2),
          .next (LoopCtl.next, (some (lastJob j s2.queue), s2.stopped, some (lastJob j s2.queue)))) := by
   intro s2
@@ -425,7 +425,7 @@ theorem translated_outputasync_ctrl_cancel_busy_is_settle_wait_settle (c : Cfg) 
     nothing else happens -/
 theorem translated_outputasync_ctrl_cancel_sentinel (c : Cfg) (W : State → State) (s : State)
     (task : Option Job) (data : Option Job) (fuel : Nat) (hq : s.queue = []) (hs : s.stopped = true) :
-    ctrl_cancel_iter1 (ctrlP c W) [()] fuel () data false task s
+    ctrl_cancel_iter1 (ctrlP c W) [.onCancel] fuel () data false task s
       = ((match task with
           | some k => if (ctrlP c W).taskDone k s then s else W s
           | none => s),
@@ -442,7 +442,7 @@ theorem translated_outputasync_ctrl_cancel_sentinel (c : Cfg) (W : State → Sta
     queue, does not cancel the task it has just started, awaits it and leaves the loop -/
 theorem translated_outputasync_ctrl_cancel_after_stop (c : Cfg) (W : State → State) (s : State)
     (k : Job) (data : Option Job) (fuel : Nat) (hd : (ctrlP c W).taskDone k s = false) :
-    ctrl_cancel_iter1 (ctrlP c W) [()] fuel () data true (some k) s
+    ctrl_cancel_iter1 (ctrlP c W) [.onCancel] fuel () data true (some k) s
       = (W s, .next (LoopCtl.brk, (data, true, some k))) := by
   have hw : ∀ x, (ctrlP c W).awaitTask k x = (W x, .next ()) := fun _ => rfl
   unfold ctrl_cancel_iter1
@@ -456,26 +456,26 @@ theorem translated_outputasync_ctrl_cancel_after_stop (c : Cfg) (W : State → S
 theorem translated_outputasync_ctrl_wait_iter_is_settle (c : Cfg) (W : State → State) (hm : c.mode = Mode.wait)
     (s : State) (j : Job) (q : List Job) (data : Option Job) (fuel : Nat)
     (hr : s.runs = []) (hq : s.queue = j :: q) :
-    ctrl_wait_iter1 (ctrlP c W) [()] fuel data s = (W (settle c s), .next (LoopCtl.next, some j)) := by
+    ctrl_wait_iter1 (ctrlP c W) [.onCancel] fuel data s = (W (settle c s), .next (LoopCtl.next, some j)) := by
   have hset : settle c s = startRun { s with queue := q } j := by
     unfold settle; simp only [hm, hr, hq]
   have hrw : (ctrlP c W).runWrapper (some j) { s with queue := q } = (W (startRun { s with queue := q } j), .next ()) := rfl
   unfold ctrl_wait_iter1
-  simp only [M.bind, ctrlP_get_cons c W s j q hq, Option.isNone_some, Bool.false_eq_true, if_false, hrw, M.pure, hset]
+  simp [M.bind, ctrlP_get_cons c W s j q hq, hrw, M.pure, hset]
 
 /-- the sentinel ends `_ctrl_wait`; nothing else happens -/
 theorem translated_outputasync_ctrl_wait_sentinel (c : Cfg) (W : State → State) (s : State) (data : Option Job)
     (fuel : Nat) (hq : s.queue = []) (hs : s.stopped = true) :
-    ctrl_wait_iter1 (ctrlP c W) [()] fuel data s = (s, .next (LoopCtl.brk, none)) := by
+    ctrl_wait_iter1 (ctrlP c W) [.onCancel] fuel data s = (s, .next (LoopCtl.brk, none)) := by
   unfold ctrl_wait_iter1
-  simp only [M.bind, ctrlP_get_sentinel c W s hq hs, Option.isNone_none, if_true, M.pure]
+  simp [M.bind, ctrlP_get_sentinel c W s hq hs, M.pure]
 
 /-- `_ctrl_start` on a stopped block: every queued item starts its own run at once, in order -- the model's
     `startAll`, i.e. its `settle` up to `stop_async`'s part --, then the controller awaits all of them (`W`) -/
 theorem translated_outputasync_ctrl_start_is_startAll (c : Cfg) (W : State → State) (hm : c.mode = Mode.start)
     (s : State) (fuel : Nat) (hs : s.stopped = true) (hf : s.queue.length < fuel) :
     let s1 := startAll { s with queue := [] } s.queue
-    ctrl_start (ctrlP c W) [()] fuel s = ((if s1.runs.isEmpty then s1 else W s1), .next ()) ∧
+    ctrl_start (ctrlP c W) [.onCancel] fuel s = ((if s1.runs.isEmpty then s1 else W s1), .next ()) ∧
     settle c s = startStopData s1 := by
   intro s1
   refine ⟨?_, by unfold settle; simp only [hm]; rfl⟩
@@ -526,6 +526,63 @@ theorem translated_outputasync_stop_async_is_model (c : Cfg) (W : State → Stat
       cases hp : (W s).sdPending <;>
         simp [stopP, hd, hm, M.bind, M.modify, M.pure, M.tryExcept, hp, hst, hr]
   · cases hd : c.stopData <;> simp [stopP, hd, hm, M.bind, M.modify, M.pure, M.tryExcept]
+
+/-! ### one run: `_output_coro`, `_output_coro_wrapper` -/
+
+/-- the user's coroutine comes to its end: `_output_coro` logs what the model's `coroEnd` logs (`afterCoro`:
+    the end of the coroutine, then success for a returning and error for a raising script, with the job's
+    own data), then sleeps the (shielded) guard time iff it is positive -/
+theorem translated_outputasync_output_coro_end_is_model (c : Cfg) (s : State) (j : Job) (t : Nat) :
+    output_coro (runP0 c (.ends t)) [.onCancel] [.onError] [.onSuccess] j s
+      = (guardPart c (afterCoro (emit s (.start j)) t ⟨j, true, t⟩), .next ()) := by
+  unfold output_coro guardPart afterCoro
+  cases hf : j.data.fail <;> by_cases hg : 0 < c.guard <;>
+    simp [tryExceptElse, runP0, excIs, M.bind, M.pure, M.modify, M.raise, M.tryExcept, hf, hg,
+      output_coro_for1, output_coro_for2, output_coro_for3, emit, sleepGuard]
+
+/-- a cancellation is delivered inside the user's coroutine: `_output_coro` reports it through on_cancel
+    with the job's own data -- the two log entries of the model's `cancelCur` / `expire` -- and still sleeps
+    the guard time -/
+theorem translated_outputasync_output_coro_cancel_is_model (c : Cfg) (s : State) (j : Job) (t : Nat) :
+    output_coro (runP0 c (.cancelledAt t)) [.onCancel] [.onError] [.onSuccess] j s
+      = (guardPart c (emit (emit { emit s (.start j) with now := max s.now t } (.cancelled j)) (.canc j)), .next ()) := by
+  unfold output_coro guardPart
+  by_cases hg : 0 < c.guard <;>
+    simp [tryExceptElse, runP0, excIs, M.bind, M.pure, M.modify, M.raise, M.tryExcept, hg,
+      output_coro_for1, output_coro_for2, output_coro_for3, emit, sleepGuard]
+
+/-- the whole run: `_output_coro_wrapper` counts the output up, runs `_output_coro`, and counts it down in
+    every case -- the model's `startRun`, `afterCoro` (+ guard time), `countDown` (the model additionally
+    keeps the run in `runs` while it is active) -/
+theorem translated_outputasync_wrapper_is_model (c : Cfg) (s : State) (j : Job) (t : Nat) :
+    (output_coro_wrapper (runP c (.ends t)) [.onCancel] [.onError] [.onSuccess] j s).1
+      = { countDown (guardPart c (afterCoro (startRun s j) t ⟨j, true, t⟩)) with runs := s.runs } := by
+  have h1 := translated_outputasync_output_coro_end_is_model c (addOut 1 s) j t
+  unfold output_coro_wrapper
+  simp only [runP, M.bind, M.tryFinally, M.pure]
+  have ha : ∀ d x, (runP0 c (.ends t)).addOutput d x = (addOut d x, .next ()) := fun _ _ => rfl
+  simp only [ha, h1]
+  unfold guardPart afterCoro countDown startRun addOut sleepGuard
+  by_cases hg : 0 < c.guard <;> cases hf : j.data.fail <;> simp [hg, hf, emit] <;> omega
+
+/-- the output is counted down IN EVERY CASE (`try … finally`): whatever `_output_coro` does -- returns,
+    raises, is cancelled --, the wrapper counts the output up before and down after it, and the outcome
+    of `_output_coro` is the outcome of the wrapper -/
+theorem translated_outputasync_wrapper_counts_down_always (c : Cfg) (oc : Outcome)
+    (body : Job → M State Exc Unit Unit) (j : Job) (s : State) :
+    output_coro_wrapper (runPwith c oc body) [.onCancel] [.onError] [.onSuccess] j s
+      = (addOut (-1) (body j (addOut 1 s)).1,
+         match (body j (addOut 1 s)).2 with
+         | .next _ => .next ()
+         | .ret r => .ret r
+         | .raise e => .raise e
+         | .diverged => .diverged) := by
+  have ha : ∀ d x, (runPwith c oc body).addOutput d x = (addOut d x, .next ()) := fun _ _ => rfl
+  have hb : (runPwith c oc body).runCoro = body := rfl
+  unfold output_coro_wrapper
+  simp only [M.bind, M.tryFinally, M.pure, ha, hb]
+  cases hbody : body j (addOut 1 s) with
+  | mk s1 o => cases o <;> rfl
 
 end Edzed.TrTie
 
